@@ -113,20 +113,29 @@ func checkFields3(w *W, v *spec.V3, L int, rng *rand.Rand, pairs *atomic.Int64) 
 	for D := L; D <= spec.LEnv; D++ {
 		k := lib.Kind3(D)
 		want := expectFields3(v, D)
-		// three spellings of the same token set
+		// spellings of the same token set, at the DECODER's level: canonical order; random order; random order
+		// with every X flipped between spelled and omitted (incl. the metrics of levels L+1..D, which the
+		// vector does not write); every Not Defined metric of the decoder's level spelled; all of them omitted
 		s1 := render3(v, L, nil)
 		s2 := render3(v, L, rng)
 		vv := *v
-		for mi := spec.E; mi < spec.V3LevelEnd(L); mi++ { // flip spelled X <-> omitted
+		for mi := spec.E; mi < spec.V3LevelEnd(D); mi++ { // flip spelled X <-> omitted
 			if vv.M[mi] == 0 {
 				vv.M[mi] = -1
 			} else if vv.M[mi] < 0 {
 				vv.M[mi] = 0
 			}
 		}
-		s3 := render3(&vv, L, rng)
+		s3 := render3(&vv, D, rng)
+		va, vo := *v, *v
+		for mi := spec.E; mi < spec.V3LevelEnd(D); mi++ {
+			if va.M[mi] <= 0 {
+				va.M[mi], vo.M[mi] = 0, -1
+			}
+		}
+		s4, s5 := render3(&va, D, nil), render3(&vo, D, rng)
 		var first string
-		for i, s := range []string{s1, s2, s3} {
+		for i, s := range []string{s1, s2, s3, s4, s5} {
 			w.Eval(1)
 			o, err, pan := lib.Decode(k, s, false)
 			if pan != nil || err != nil || o.IsNil() {
@@ -139,6 +148,10 @@ func checkFields3(w *W, v *spec.V3, L int, rng *rand.Rand, pairs *atomic.Int64) 
 					Observed: fieldNames3(got), Expected: fieldNames3(want)})
 			}
 			ob := fullObs(o)
+			if after := o.Fields(); !sameInts(after, want) {
+				w.Violate(Violation{Monitor: "C09", Check: "the exported fields still equal the written values after the object has been queried", Case: decodeCase(k, s, false),
+					Observed: fieldNames3(after), Expected: fieldNames3(want)})
+			}
 			if i == 0 {
 				first = ob
 			} else {
@@ -357,6 +370,17 @@ func runC14(r *Run) int {
 				continue
 			}
 			c := decodeCase(k, s, false)
+			// a twin whose own score/severity/encoding/report are queried BEFORE its views are read
+			if tw, err, _ := lib.Decode(k, s, false); err == nil && !tw.IsNil() {
+				tw.Observe()
+				doOp(tw, 8, 1)
+				tbv, _, _ := tw.BaseView()
+				cmpView(w, "BaseMetrics() read after the higher-level object was queried", c, tbv, lib.K3B, proj(spec.LBase))
+				if D == spec.LEnv {
+					ttv, _, _ := tw.TemporalView()
+					cmpView(w, "TemporalMetrics() read after the higher-level object was queried", c, ttv, lib.K3T, proj(spec.LTemp))
+				}
+			}
 			bv, _, _ := o.BaseView()
 			cmpView(w, "BaseMetrics()", c, bv, lib.K3B, proj(spec.LBase))
 			if eb, ok := o.EmbeddedBase(); ok {
@@ -379,6 +403,9 @@ func runC14(r *Run) int {
 					cmpView(w, "TemporalMetrics().BaseMetrics()", c, tb, lib.K3B, proj(spec.LBase))
 				}
 			}
+			// ... and once more after the object itself has been queried
+			o.Observe()
+			cmpView(w, "BaseMetrics() (views read before and after the object was queried)", c, bv, lib.K3B, proj(spec.LBase))
 		}
 		if rng.IntN(5000) == 0 {
 			w.Sample(map[string]interface{}{"vector": s, "base_projection": proj(spec.LBase), "temporal_projection": proj(spec.LTemp)})
@@ -403,6 +430,15 @@ func runC14(r *Run) int {
 				continue
 			}
 			c := decodeCase(k, s, false)
+			if tw, err, _ := lib.Decode(k, s, false); err == nil && !tw.IsNil() {
+				tw.Observe()
+				tbv, _, _ := tw.BaseView()
+				cmpView(w, "BaseMetrics() read after the higher-level object was queried", c, tbv, lib.K2B, v.BaseString())
+				if D == spec.LEnv {
+					ttv, _, _ := tw.TemporalView()
+					cmpView(w, "TemporalMetrics() read after the higher-level object was queried", c, ttv, lib.K2T, v.TemporalString())
+				}
+			}
 			bv, _, _ := o.BaseView()
 			cmpView(w, "BaseMetrics()", c, bv, lib.K2B, v.BaseString())
 			if eb, ok := o.EmbeddedBase(); ok {
